@@ -92,6 +92,15 @@ static std::vector<SetProfile> build_set_profiles() {
     SetProfile p = ps[0]; p.name = "setreloc"; p.w[S_RELOCATE] = 60; p.meanLen = 20;
     ps.push_back(p);
   }
+  size_t base = ps.size();
+  for (size_t i = 0; i < base; ++i) {
+    const std::string &n = ps[i].name;
+    if (n == "sethist" || n == "setsmall" || n == "setfault" || n == "setreloc" || n == "setinline") {
+      SetProfile p = ps[i];
+      p.name = n + "_long"; p.meanLen = ps[i].meanLen * 4; p.maxLen = 400; p.bulkMax = ps[i].bulkMax * 2;
+      ps.push_back(p);
+    }
+  }
   return ps;
 }
 static const std::vector<SetProfile> &set_profiles() {
@@ -209,6 +218,17 @@ struct SRunner {
       return false;
     }
     SetObs o = t.observe(s.obj);
+    if (t.flavour == SF_FLAT && o.data && !o.dataInside && t.allocDomain && o.capacity) {
+      // ledger cross-check: the buffer of the underlying vector is a live block obtained for exactly capacity() elements
+      const SimHeap::Block *b = g_heap.find_live(o.data);
+      if (!b) { viol(VK_ALLOC, P(6), std::string(when) + ": the underlying vector's data() does not designate a live block of the allocator"); return false; }
+      if (b->bytes != o.capacity * o.elemSize) {
+        char m[200];
+        snprintf(m, sizeof m, "%s: capacity() is %zu but the buffer was obtained / last reallocated for %zu elements", when, o.capacity, b->bytes / o.elemSize);
+        viol(VK_ALLOC, P(6), m);
+        return false;
+      }
+    }
     if (fwd.size() != o.size || rev.size() != o.size) {
       char m[160];
       snprintf(m, sizeof m, "%s: walking begin()..end() visits %zu elements, rbegin()..rend() %zu, size() is %zu", when, fwd.size(), rev.size(), o.size);
@@ -347,8 +367,10 @@ struct SRunner {
         io.vals.push_back(fresh(op.a, 0));
         if (!may_add_one(io.vals[0])) return false;
         // half of the time the correct hint (from the model), otherwise any position in [begin, end]
-        if (t.flavour == SF_FLAT && ((op.b >> 20) & 1)) io.pos = (size_t)model_index(s.model, s.model.lower_bound(io.vals[0]));
-        else io.pos = op.b % (sz + 1);
+        if (t.flavour == SF_FLAT && ((op.b >> 20) & 1)) {
+          // a correct hint: where the value belongs; for a value that is already present also the position just after it
+          io.pos = (size_t)model_index(s.model, ((op.b >> 21) & 1) ? s.model.upper_bound(io.vals[0]) : s.model.lower_bound(io.vals[0]));
+        } else io.pos = op.b % (sz + 1);
         return true;
       }
       case S_INSERT_RANGE: case S_INSERT_IL: case S_CTOR_RANGE: case S_CTOR_IL: case S_ASSIGN_IL: {
@@ -672,7 +694,7 @@ struct SRunner {
             }
             cell(19, s.typeIdx, u.call, n0 < 2 ? 0 : n0 < 17 ? 1 : n0 < 129 ? 2 : n0 < 1025 ? 3 : 4, u.calls < 63 ? u.calls : 63);
           } else if (u.call == 9 || u.call == 10) {
-            bool correct = (size_t)model_index_before(io) == io.pos;
+            bool correct = (size_t)lbBefore == io.pos || (size_t)ubBefore == io.pos;
             if (u.call == 10 && !(io.toSelf && (io.variant & 4))) correct = false;  // hinted node insertion is budgeted when it goes back into the same set
             if (correct && u.calls > 8) {  // the implementation needs at most 4; log2(n)+2 exceeds 8 from n = 128 on
               char m[200];
@@ -725,8 +747,7 @@ struct SRunner {
     }
   }
 
-  long lbBefore = 0;
-  long model_index_before(const SetIOp &) const { return lbBefore; }
+  long lbBefore = 0, ubBefore = 0;
 
   // designated element checks
   bool expect_it(const SetResult &res, bool expectEnd, const Val &expectVal, const char *what, PropMask iterProp) {
@@ -765,6 +786,7 @@ struct SRunner {
       } break;
       case S_INSERT_HINT: case S_EMPLACE_HINT: {
         lbBefore = model_index(m, m.lower_bound(x[0]));
+        ubBefore = model_index(m, m.upper_bound(x[0]));
         auto mr = m.insert(x[0]);
         expect_it(res, false, *mr.first, name, iterProp);
       } break;
@@ -844,7 +866,7 @@ struct SRunner {
         if (!found) break;
         Val v = *mi;
         if (res.nodeVal != v) { viol(VK_MODEL, base, "extract(key) returned a node owning another element"); return; }
-        lbBefore = model_index(m, mi);
+        lbBefore = ubBefore = model_index(m, mi);
         m.erase(mi);
         SSlot &tgt = io.toSelf ? s : *w;
         auto mr = tgt.model.insert(v);
